@@ -224,10 +224,12 @@ def simplify_math_iterators(source: str) -> str:
 
     for node in core.walk(root, template):
         arg = node.args[0]
+        if node.func.id != "sum":
+            # The closed forms below are sums
+            continue
+
         if core.match_template(arg, ast.Call(func=ast.Name(id="range"))):
             if any((node is not arg for node in core.walk(arg, (ast.Attribute, ast.Call)))):
-                continue
-            if node.func.id != "sum":
                 continue
             _, _, step = _get_range_start_end(arg)
             if not core.match_template(step, ast.Constant(value=1)):
@@ -242,6 +244,8 @@ def simplify_math_iterators(source: str) -> str:
                 core.match_template(node.func, ast.Name(id="range"))
                 for node in core.walk(arg, ast.Call)
             ):
+                continue
+            if not arg.elts:
                 continue
             yield node, _sum_constants(arg.elts)
 
